@@ -13,6 +13,9 @@ def tail(u, src, fn, start_re, header, name):
     t.resub(r'\bself\.', 'self_.', 'R6', 'slice wrapper: self -> self_', count=None)
     t.resub(r'&mut shell\b', '&mut *shell', 'R6', 'the local `shell` (owned in the original) is a `&mut` parameter of the wrapper', count=None)
     t.resub(r'\bpost_execute\(&mut \*shell\)', 'vx_call_post_execute(post_execute, &mut *shell)', 'R14', 'call through the fn pointer -> stub', count=None)
+    if name == 'external_tail':
+        t.resub(r'resolved_path\.as_ref\(\)', 'resolved_path.as_str()', 'R14', '`Cow<str>::as_ref()` -> `String::as_str()` (R17: the Cow is a String here)', count=None)
+        t.resub(r'self_\.argv0\.as_deref\(\)', 'vx_as_deref(&self_.argv0)', 'R14', 'Option<String>::as_deref -> stub', count=None)
     t.sig(name, ret='res', requires=[C('aux args-include-the-command-name', 'self_.args@.len() >= 1')], ensures=[
         C('C18,C09 post-execute-exactly-once-on-every-exit', 'hook_once(*old(shell), *final(shell), self_.post_execute)')])
     u.add(t)
@@ -31,9 +34,12 @@ def build(repo, findings):
     tail(u, src, 'execute_via_function', r'^\s*let result = invoke_shell_function\(func_registration, cmd_context, &self\.args\[1\.\.\]\)\.await;',
          'fn function_tail(self_: SimpleCommandTail, shell: &mut ShellForCommand, func_registration: functions::Registration, cmd_context: ExecutionContext, last_arg: Option<String>) -> Result<ExecutionSpawnResult, error::Error>',
          'function_tail')
+    tail(u, src, 'execute_via_external', r'^\s*let result = execute_external_command\(',
+         'fn external_tail(self_: SimpleCommandTail, shell: &mut ShellForCommand, cmd_context: ExecutionContext, resolved_path: String, last_arg: Option<String>) -> Result<ExecutionSpawnResult, error::Error>',
+         'external_tail')
     u.raw(FOOTER)
-    u.assume('external_body', 'execute_builtin_command / invoke_shell_function are abstract (they hold the command context; they cannot run the hook); ShellForCommand is opaque with a ghost hook counter; the fn pointer call is a stub (rule R14)')
+    u.assume('external_body', 'execute_builtin_command / invoke_shell_function / execute_external_command are abstract (they hold the command context; they cannot run the hook); ShellForCommand is opaque with a ghost hook counter; the fn pointer call is a stub (rule R14)')
     u.assume('uninterp', 'ShellForCommand::hooks (ghost)')
-    u.assume('stub', 'SimpleCommand::execute itself (builtin / function / PATH lookup with closures and iterators) and execute_via_external are NOT verified: an exit added there that skips the hook is not seen')
-    u.expected_min_fns = 2
+    u.assume('stub', 'the heads of the three paths (argument shuffling before the callee is invoked) are not in the slices; SimpleCommand::execute itself is unit U4r')
+    u.expected_min_fns = 3
     return u
